@@ -52,6 +52,9 @@ const (
 	TypeBit
 )
 
+// TypeJSON is the type of JSON columns (MySQL 5.7.8 and later), its values are sent as length-encoded strings
+const TypeJSON Type = 0xf5
+
 // MySQL types
 const (
 	TypeNewDecimal Type = iota + 0xf6
